@@ -20,6 +20,9 @@ owns the scenario; this file owns
     study parent, every pool worker, resource tracker - never to a single worker (a pool that lost one
     worker would make `pool.map` wait forever, which is an artefact and not the scenario of C18).
 
+Header kills (HEADER_STEPS) strike in the study parent while it writes the header of tpy_mp.log, before the pool
+exists; `kill.case` then only selects how many input lines a header_mid_inputs cut leaves (header_lines()).
+
 Spec keys: dir, study_name, inputs [[name, nice, start, end, scale, must_include, n, as_tuple]], pool,
 counter_dir, raise_cases [int], kill {case, step, delay_ms} | null, work_ms, out, force_restart.
 """
@@ -29,11 +32,17 @@ import signal
 import sys
 import time
 
-STEPS = ('pre_log', 'post_log', 'post_mkdir', 'post_func', 'mid_savez', 'post_savez', 'post_marker',
-         'post_success_line')
+CASE_STEPS = ('pre_log', 'post_log', 'post_mkdir', 'post_func', 'mid_savez', 'post_savez', 'post_marker',
+              'post_success_line')
+# kills in the study parent while it writes the header of tpy_mp.log (before any case exists):
+#   header_empty       log file created by open(..., 'w'), nothing written yet
+#   header_mid_inputs  log flushed after `lines` (>= 1) input lines (cut between input lines; with one axis: after its line)
+#   header_no_close    log flushed after all input lines, before the closing '------------' line
+HEADER_STEPS = ('header_empty', 'header_mid_inputs', 'header_no_close')
+STEPS = CASE_STEPS + HEADER_STEPS
 
 CONFIG = {'counter_dir': None, 'raise_cases': (), 'work_ms': 0}
-KILL = {'case': None, 'step': None, 'delay_ms': 0, 'marker': None}
+KILL = {'case': None, 'step': None, 'delay_ms': 0, 'marker': None, 'lines': 1}
 
 
 def f_value(args):
@@ -99,8 +108,24 @@ class _FileProxy:
         self._mode = mode
         self._case_text = None
         self._success = None
+        self._header = mode == 'w' and os.path.basename(path) == 'tpy_mp.log'
+        self._input_lines = 0
+
+    def _header_cut(self, step):
+        if KILL['step'] == step:
+            self._fh.flush()        # the partial header reaches the file (models an unbuffered / large header)
+            _kill_now(step, KILL['case'])
 
     def write(self, text):
+        if self._header and isinstance(text, str):
+            if text == '------------\n':
+                self._header_cut('header_no_close')
+            r = self._fh.write(text)
+            if ':-:' in text:
+                self._input_lines += 1
+                if self._input_lines == KILL['lines']:
+                    self._header_cut('header_mid_inputs')
+            return r
         if isinstance(text, str):
             if text.startswith('MP Study:: Working on Case'):
                 self._case_text = int(text.split('Working on Case')[1].split('of')[0])
@@ -136,6 +161,8 @@ def _open_proxy(path, mode='r', *a, **kw):
     fh = open(path, mode, *a, **kw)
     base = os.path.basename(str(path))
     if base in ('tpy_mp.log', 'mp_success.log') and mode in ('a', 'w'):
+        if base == 'tpy_mp.log' and mode == 'w' and KILL['step'] == 'header_empty':
+            _kill_now('header_empty', KILL['case'])     # file exists and is empty
         return _FileProxy(fh, str(path), mode)
     return fh
 
@@ -185,9 +212,14 @@ class _NpProxy:
         return r
 
 
-def install_faults(mod, kill, marker):
+def header_lines(case, n_inputs):
+    """Number of input lines in the log when a header_mid_inputs kill strikes (1 .. max(1, n_inputs - 1))."""
+    return 1 + int(case) % max(1, int(n_inputs) - 1)
+
+
+def install_faults(mod, kill, marker, n_inputs=1):
     KILL.update(case=int(kill['case']), step=str(kill['step']), delay_ms=int(kill.get('delay_ms', 0)),
-                marker=marker)
+                marker=marker, lines=header_lines(kill['case'], n_inputs))
     assert KILL['step'] in STEPS, KILL['step']
     mod.print = _print_proxy
     mod.open = _open_proxy
@@ -254,7 +286,7 @@ def main(argv):
                      work_ms=int(spec.get('work_ms') or 0))
     payload = {'status': None, 'inject_check': me._inject_check(mod), 'pgid': os.getpgrp(), 'pid': os.getpid()}
     if spec.get('kill'):
-        me.install_faults(mod, spec['kill'], spec['kill_marker'])
+        me.install_faults(mod, spec['kill'], spec['kill_marker'], n_inputs=len(spec['inputs']))
     inputs = []
     for name, nice, start, end, scale, must, n, as_tuple in spec['inputs']:
         must = tuple(must) if as_tuple else list(must)
